@@ -8,6 +8,7 @@ package server
 // before the restart.
 
 import (
+	"bytes"
 	"context"
 	"fmt"
 	"os"
@@ -18,6 +19,7 @@ import (
 
 	lift "github.com/liftbridge-io/go-liftbridge/v2"
 	client "github.com/liftbridge-io/liftbridge-api/v2/go"
+	"github.com/hashicorp/raft"
 	proto "github.com/liftbridge-io/liftbridge/server/protocol"
 )
 
@@ -28,7 +30,7 @@ func lbvcRenderLive(s *Server) string {
 			continue
 		}
 		for _, p := range st.GetPartitions() {
-			isr := append([]string{}, p.Isr...)
+			isr := append([]string{}, p.GetISR()...) // the LIVE in-sync set (the map), not the list kept for the snapshot
 			sort.Strings(isr)
 			reps := append([]string{}, p.Replicas...)
 			sort.Strings(reps)
@@ -117,6 +119,39 @@ func lbvcRenderSnapshot(snap *proto.MetadataSnapshot) string {
 	return strings.Join(out, "\n")
 }
 
+// lbvcSink is an in-memory raft.SnapshotSink: the stand-in looks at what Persist WRITES, not at the snapshot object
+type lbvcSink struct{ bytes.Buffer }
+
+func (s *lbvcSink) ID() string    { return "lbvc" }
+func (s *lbvcSink) Close() error  { return nil }
+func (s *lbvcSink) Cancel() error { return nil }
+
+func lbvcPersist(snap raft.FSMSnapshot) (*proto.MetadataSnapshot, error) {
+	sink := &lbvcSink{}
+	if err := snap.Persist(sink); err != nil {
+		return nil, err
+	}
+	b := sink.Bytes()
+	if len(b) < 4 {
+		return nil, fmt.Errorf("persisted snapshot of %d bytes", len(b))
+	}
+	ms := new(proto.MetadataSnapshot)
+	if err := ms.Unmarshal(b[4:]); err != nil {
+		return nil, err
+	}
+	return ms, nil
+}
+
+func lbvcGroupLines(render string) string {
+	var out []string
+	for _, l := range strings.Split(render, "\n") {
+		if strings.HasPrefix(l, "group ") {
+			out = append(out, l)
+		}
+	}
+	return strings.Join(out, "\n")
+}
+
 func lbvcFirstDiff(a, b string) string {
 	la, lb := strings.Split(a, "\n"), strings.Split(b, "\n")
 	for i := 0; i < len(la) || i < len(lb); i++ {
@@ -162,6 +197,29 @@ func TestLbvcBoundedSnapshot(t *testing.T) {
 			return err
 		}
 	}
+	raftOp := func(op *proto.RaftLog) func() error {
+		return func() error {
+			fut, err := s1.getRaft().applyOperation(ctx, op, nil)
+			if err != nil {
+				return err
+			}
+			return fut.Error()
+		}
+	}
+	isrOp := func(expand bool, replica string) func() error {
+		return func() error {
+			p := s1.metadata.GetPartition("isr", 0)
+			if p == nil {
+				return fmt.Errorf("no partition")
+			}
+			leader, epoch := p.GetLeader()
+			op := &proto.RaftLog{Op: proto.Op_SHRINK_ISR, ShrinkISROp: &proto.ShrinkISROp{Stream: "isr", Partition: 0, ReplicaToRemove: replica, Leader: leader, LeaderEpoch: epoch}}
+			if expand {
+				op = &proto.RaftLog{Op: proto.Op_EXPAND_ISR, ExpandISROp: &proto.ExpandISROp{Stream: "isr", Partition: 0, ReplicaToAdd: replica, Leader: leader, LeaderEpoch: epoch}}
+			}
+			return raftOp(op)()
+		}
+	}
 	steps := []step{
 		{"create foo (1 partition)", func() error { return c.CreateStream(ctx, "foo", "foo") }},
 		{"create bar (3 partitions)", func() error { return c.CreateStream(ctx, "bar", "bar", lift.Partitions(3)) }},
@@ -181,11 +239,26 @@ func TestLbvcBoundedSnapshot(t *testing.T) {
 		{"set bar read-write", func() error { return c.SetStreamReadonly(ctx, "bar", lift.Readonly(false)) }},
 		{"pause bar partition 1", func() error { return c.PauseStream(ctx, "bar", lift.PausePartitions(1)) }},
 		{"leave h/x (group becomes empty)", leave("h", "x")},
+		// a partition with several replicas (the servers b c d do not exist; only the metadata is exercised): its in-sync
+		// set shrinks and expands, also by an expansion that is repeated (a leader retrying a request that had timed out
+		// but was committed)
+		{"create isr (replicas b c d, leader b)", raftOp(&proto.RaftLog{Op: proto.Op_CREATE_STREAM, CreateStreamOp: &proto.CreateStreamOp{Stream: &proto.Stream{Name: "isr", Subject: "isr",
+			Partitions: []*proto.Partition{{Stream: "isr", Subject: "isr", Id: 0, ReplicationFactor: 3, Replicas: []string{"b", "c", "d"}, Isr: []string{"b", "c", "d"}, Leader: "b"}}}}})},
+		{"shrink isr: c leaves", isrOp(false, "c")},
+		{"expand isr: c joins", isrOp(true, "c")},
+		{"expand isr: c joins (repeated)", isrOp(true, "c")},
+		{"shrink isr: c leaves", isrOp(false, "c")},
+		{"shrink isr: d leaves", isrOp(false, "d")},
+		{"expand isr: d joins", isrOp(true, "d")},
+		{"join g/cons5 [bar]", join("g", "cons5", "bar")},
+		{"leave g/cons2", leave("g", "cons2")},
 	}
 	evaluations := 0
 	states := map[string]bool{}
 	bad := ""
 	knownSeen := false
+	var prevSnap raft.FSMSnapshot
+	prevLive, prevName := "", ""
 	for _, st := range steps {
 		if err := st.do(); err != nil {
 			continue // an operation the server refuses is not part of the history
@@ -197,7 +270,26 @@ func TestLbvcBoundedSnapshot(t *testing.T) {
 			break
 		}
 		live := lbvcRenderLive(s1)
-		stored := lbvcRenderSnapshot(snap.(*fsmSnapshot).MetadataSnapshot)
+		// Raft fixes a snapshot's index when Snapshot() is called but runs Persist later, while further operations are
+		// applied: what the PREVIOUS step's snapshot stores about the consumer groups - persisted only now, one operation
+		// later - must still be the groups as they were when it was taken (group operations are not idempotent: replaying
+		// them over a snapshot that already contains them fails)
+		if prevSnap != nil {
+			if late, err := lbvcPersist(prevSnap); err == nil {
+				evaluations++
+				if got := lbvcGroupLines(lbvcRenderSnapshot(late)); got != lbvcGroupLines(prevLive) {
+					bad = fmt.Sprintf("the snapshot taken after %q and persisted after the next operation (%q) does not hold the consumer groups as they were when it was taken: %s", prevName, st.name, lbvcFirstDiff(lbvcGroupLines(prevLive), got))
+					break
+				}
+			}
+		}
+		prevSnap, prevLive, prevName = snap, live, st.name
+		persisted, err := lbvcPersist(snap)
+		if err != nil {
+			bad = fmt.Sprintf("after %q: Persist fails: %v", st.name, err)
+			break
+		}
+		stored := lbvcRenderSnapshot(persisted)
 		evaluations++
 		states[live] = true
 		if live != stored {
@@ -205,7 +297,7 @@ func TestLbvcBoundedSnapshot(t *testing.T) {
 			break
 		}
 		// who owns which partition must survive a restore from this snapshot, whatever order the member list has
-		for _, pg := range snap.(*fsmSnapshot).MetadataSnapshot.Groups {
+		for _, pg := range persisted.Groups {
 			lg := s1.metadata.GetConsumerGroup(pg.Id)
 			if lg == nil {
 				continue
